@@ -12,7 +12,7 @@ import (
 
 func init() {
 	register("C15",
-		"Decides the structural premises of 'every descriptor closed exactly once, and no other': close(2) is issued only from the frozen set of owner functions (census; a new caller is reported); a number borrowed from an *os.File (listener.fd = file.Fd()) is never closed raw when the file exists - the file closes it - and the file is closed when it exists; the connection descriptor is closed under the close-once counter, never when detaching and never for numbers <= 2; after a descriptor was created every error exit closes it exactly once (sysSocket, socket, openDefaultPoll); the poller's exit closes both of its descriptors; surplus pollers are closed when the pool shrinks. Not decided: the descriptor table at run time, closes done by the standard library.",
+		"Decides the structural premises of 'every descriptor closed exactly once, and no other': close(2) is issued only from the frozen set of owner functions (census; a new caller is reported); a number borrowed from an *os.File (listener.fd = file.Fd()) is never closed raw when the file exists - the file closes it - and the file is closed when it exists; the connection descriptor is closed under the close-once counter, never when detaching and never for numbers <= 2; after a descriptor was created every error exit closes it exactly once (sysSocket, socket, openDefaultPoll); the poller's exit closes both of its descriptors; surplus pollers are closed when the pool shrinks. A pool growth that fails half way closes the pollers it opened (F18); ConvertListener never closes the caller's listener; the shrink loop closes elements of the installed pool (C18.R3). Not decided: the descriptor table at run time, closes done by the standard library.",
 		[]string{"(*os.File).Close closes the descriptor returned by Fd() exactly once"},
 		func(r *Run) {
 			cfgs := []string{"linux"}
